@@ -361,6 +361,18 @@ def check_history(case, snaps, exc):
                 return [V('C16', 'C16.override', 'not-applied',
                           'after operation %d (%s) the named process reads %r' % (i, _desc(h), node))]
             pid = node.split('|')[0]
+            # ... and keeps what earlier overrides (its `_schema` parameter, a composer's
+            # override) set: overrides accumulate, they do not replace each other
+            before = _find_marker(model, pid)
+            if before is not None:
+                import json as _json
+                want_ov = union(_json.loads(before.split('|')[1]),
+                                {'acc': {h['var']: {'_default': h['default']}}})
+                got_ov = _json.loads(node.split('|')[1])
+                if got_ov != want_ov:
+                    return [V('C16', 'C16.override', 'earlier-override-lost',
+                              'after operation %d (%s) the overrides of the named process are %r, expected %r' % (
+                                  i, _desc(h), got_ov, want_ov))]
             model = {nm: _replace_marker(t, pid, node) for nm, t in model.items()}
             overrides_of.setdefault(h['into'], []).append(h['target'])
         if h['op'].startswith('merge') and overrides_of.get(h['into']):
@@ -387,6 +399,22 @@ def check_history(case, snaps, exc):
                           'after operation %d (%s) composite %s is %r, expected %r' % (
                               i, _desc(h), nm, _diff(got, exp)[0], _diff(got, exp)[1]))]
     return []
+
+
+def _find_marker(t, pid):
+    if isinstance(t, dict):
+        for v in t.values():
+            m = _find_marker(v, pid)
+            if m is not None:
+                return m
+    elif isinstance(t, list):
+        for v in t:
+            m = _find_marker(v, pid)
+            if m is not None:
+                return m
+    elif isinstance(t, str) and t.startswith('<P:') and t.split('|')[0] == pid:
+        return t
+    return None
 
 
 def _replace_marker(t, pid, new):
